@@ -385,6 +385,34 @@ var c07Ops = []corruption{
 		}
 		return resp, true
 	}},
+	{"item-change-block-hash-one-tx", func(resp any, pos, arg int) (any, bool) {
+		// the logs of ONE transaction of a block name another block hash than the logs of the
+		// block's other transactions (a node answering in the middle of a reorg)
+		_, list, ok := findList(resp, pos)
+		if !ok || len(list) == 0 {
+			return resp, false
+		}
+		first, ok := asObj(list[arg%len(list)])
+		if !ok || first["blockNumber"] == nil || first["blockHash"] == nil || first["transactionIndex"] == nil || first["topics"] == nil {
+			return resp, false
+		}
+		bn, ti := first["blockNumber"], first["transactionIndex"]
+		others := false
+		for _, x := range list {
+			if it, ok := asObj(x); ok && it["blockNumber"] == bn && it["transactionIndex"] != ti {
+				others = true
+			}
+		}
+		if !others {
+			return resp, false
+		}
+		for _, x := range list {
+			if it, ok := asObj(x); ok && it["blockNumber"] == bn && it["transactionIndex"] == ti {
+				it["blockHash"] = "0x" + strings.Repeat("ee", 32)
+			}
+		}
+		return resp, true
+	}},
 	{"bad-hex", func(resp any, pos, arg int) (any, bool) {
 		// one hex string of one element (a hash, an address, log data ...) gets a non-hex
 		// character or an odd number of digits: still JSON, no longer the value
@@ -517,6 +545,7 @@ type servedSet struct {
 	itemHashes map[uint64][]string // block number -> blockHash of every served log / receipt / trace ("" = none)
 	wrongBlock bool // a receipts/traces response answers for another block than asked, or mixes blocks
 	transport  bool
+	fromGetLogs bool // at least one eth_getLogs response was served (logs attached by logs(), which compares every group's hash)
 }
 
 func pu(v any) uint64 {
@@ -578,6 +607,7 @@ func collectServed(ss *servedSet, ri sim.ReqInfo, resp any, start, limit uint64)
 				continue
 			}
 			list, _ := asArr(res)
+			ss.fromGetLogs = true
 			for _, x := range list {
 				ss.logs = append(ss.logs, parseLog(x))
 				ss.noteHash(x)
@@ -723,6 +753,27 @@ func c07Judge(ss *servedSet, f *glf.Filter, start, limit uint64, blocks []eth.Bl
 			if txs, _ := asArr(sb["transactions"]); inRange(n) && len(txs) > 0 && !have[n] {
 				must = fmt.Sprintf("block %d was served with %d transactions and no receipt was served for it", n, len(txs))
 			}
+		}
+	}
+	if must == "" {
+		// logs served for one block under two different (complete) block hashes: whichever block
+		// is returned, some of them are attached to a block they do not name
+		// (compared per transaction group by its first log, as served)
+		type bt struct{ b, t uint64 }
+		seenGroup := map[bt]bool{}
+		hashOf := map[uint64]string{}
+		for _, l := range ss.logs {
+			if !inRange(l.block) || !ss.fromGetLogs || seenGroup[bt{l.block, l.tx}] {
+				continue
+			}
+			seenGroup[bt{l.block, l.tx}] = true
+			if len(l.blockHash) != 66 {
+				continue
+			}
+			if h, ok := hashOf[l.block]; ok && !strings.EqualFold(h, l.blockHash) {
+				must = fmt.Sprintf("logs of two transactions of block %d were served under different block hashes (%s, %s)", l.block, h, l.blockHash)
+			}
+			hashOf[l.block] = l.blockHash
 		}
 	}
 	if must == "" {
@@ -918,6 +969,9 @@ type c07Mut struct {
 	arg int
 }
 
+// c07ThroughCache: the client keeps its segment cache (default: the 'nocache' switch).
+var c07ThroughCache bool
+
 // c07Run performs one Client.Get against the scripted node.
 func c07Run(plan string, start, limit uint64, muts []c07Mut) (viol string, applied []string, parsedOK bool, nreq int) {
 	_, ns := env()
@@ -1001,7 +1055,13 @@ func c07Run(plan string, start, limit uint64, muts []c07Mut) (viol string, appli
 		}
 		return f
 	}
-	url := ns.Attach(node, "nocache")
+	sw := "nocache"
+	if c07ThroughCache {
+		// a fresh client: the first read of a range goes to the source and comes back through the
+		// segment cache (stored, then copied out for the reader)
+		sw = ""
+	}
+	url := ns.Attach(node, sw)
 	defer ns.Detach(url)
 	c := jrpc2.New(url)
 	filter := glf.New(c07Plans[plan], nil, nil)
@@ -1070,6 +1130,15 @@ func TestC07_SingleOperator(t *testing.T) {
 							if len(applied) == 0 {
 								continue
 							}
+							if v == "" && op >= 0 && strings.HasPrefix(c07Ops[op].name, "item-") {
+								// the same through a caching client (what is stored and what a reader is handed)
+								c07ThroughCache = true
+								v, _, _, _ = c07Run(plan, start, limit, []c07Mut{{req: req, op: op, pos: pos, arg: a}})
+								c07ThroughCache = false
+								if v != "" {
+									v = "(through the segment cache) " + v
+								}
+							}
 							n++
 							desc := fmt.Sprintf("plan=%s start=%d limit=%d %v", plan, start, limit, applied)
 							ev.Case(parsed, desc, "op="+strings.Split(applied[0], "@")[0])
@@ -1101,8 +1170,10 @@ func TestC07_Combined(t *testing.T) {
 		for i := 0; i < k; i++ {
 			muts = append(muts, c07Mut{req: rapid.IntRange(0, 7).Draw(rt, "req"), op: rapid.IntRange(-5, len(c07Ops)-1).Draw(rt, "op"), pos: rapid.IntRange(0, 6).Draw(rt, "pos"), arg: rapid.IntRange(0, 400).Draw(rt, "arg")})
 		}
+		c07ThroughCache = rapid.IntRange(0, 2).Draw(rt, "throughcache") == 0
 		v, applied, parsed, _ := c07Run(plan, start, limit, muts)
-		desc := fmt.Sprintf("plan=%s start=%d limit=%d %v", plan, start, limit, applied)
+		desc := fmt.Sprintf("plan=%s start=%d limit=%d cache=%v %v", plan, start, limit, c07ThroughCache, applied)
+		c07ThroughCache = false
 		if v != "" {
 			rt.Fatalf("VERIF-VIOLATION property=C07 %s: %s", desc, v)
 		}
